@@ -60,6 +60,12 @@ CLAIMED = {
              'IDFT.diag(1,2,..,2,[1],0,..,0).DFT (real part = x, negative-frequency bins zero) within half of 64*n*eps; HilbertFilter (custom and designed taps, three frames): the real part of every output is the '
              'very input term delayed by M/2 (bit-exact); Tuner: certified linear, sample k multiplied by exp(2*pi*i*f*k/fs) for every k up to ~3*fs, integer and fractional f, across three calls.',
              note='REAL arithmetic; sin/cos at concrete arguments are the real doubles; the 1e-3 quadrature accuracy of the designed filter over its pass-band is not decided.'),
+ 'C13': dict(design='4/C13', text='welch (real and complex; nfft 4, 8 quick / 16 thorough; windows, overlaps, 1-2 segments, both scalings) with all samples symbolic: every returned value is extracted as an exact quadratic form '
+             'and must equal, for every input, the segment-averaged window-normalised periodogram at the frequency the function itself returns for that entry (pins the axis for every signal, not only tones); the frequency '
+             'vector must hold each grid frequency once; non-negativity decided by z3 on the real expression; sum(pxx) == nfft * window-normalised mean power as a polynomial identity; power scaling: a bin-centred unit sinusoid '
+             'evaluates to its mean-square value at the peak; mscohere(x, c*x): numerator and denominator of the returned quotient are the same polynomial.',
+             note='REAL arithmetic with a 1e-11 coefficient tolerance (FFT table rounding inside); mscohere in [0,1] for arbitrary pairs not decided. One open known finding (complex welch labels) is reported as KNOWN-FINDING.',
+             tech='symbolic execution of LLVM IR + exact polynomial extraction; z3 for non-negativity (QF_NRA) and ground comparisons; native replay against a 50-digit periodogram'),
 }
 ALL = [json.loads(l)['id'] for l in open(os.path.join(V, 'properties.jsonl'))]
 NA_REASON = {}
